@@ -1148,7 +1148,13 @@ func (app *ExocoreApp) BeginBlocker(
 ) abci.ResponseBeginBlock {
 	// Perform any scheduled forks before executing the modules logic
 	app.ScheduleForkUpgrade(ctx)
-	return app.mm.BeginBlock(ctx, req)
+	// The modules' BeginBlock logic runs on a gas meter of its own. What it reads from the
+	// stores depends on the history of the process: in the first block after a (re)start the
+	// oracle rebuilds its in-memory state and the capability module its memory store. On the
+	// context's own meter that consumption would be reported as the gas used by a transaction
+	// that fails its basic validation, and so reach the block's results hash, which has to be
+	// the same on a node that was restarted and on one that was not.
+	return app.mm.BeginBlock(ctx.WithGasMeter(sdk.NewInfiniteGasMeter()), req)
 }
 
 // EndBlocker updates every end block
